@@ -239,6 +239,9 @@ pub fn install_panic_hook() {
             "<non-string panic>".to_string()
         };
         PANIC_COUNT.fetch_add(1, Ordering::SeqCst);
+        if std::env::var_os("SIM_DEBUG_PANICS").is_some() {
+            eprintln!("PANIC at {loc}: {msg}");
+        }
         if let Ok(mut g) = LAST_PANIC.lock() {
             // keep the first panic of a run
             if g.is_none() {
